@@ -195,3 +195,10 @@ def run(ctx, rep) -> None:
         rep.classified(label if label.startswith('F') else '', f'{label}: review={rec["review"]} handlers='
                        f'{[(h["id"], h["typ"], h["ops"], h["sub"], h["outcome"]) for h in rec["handlers"]]} ran={rec["ran"]} resp='
                        f'{ {k: v for k, v in rec["resp"].items() if k != "ops"} }', payload=rec)
+    # the announcing side: what build_webhooks tells the cluster about the handlers (Webhooks.tla) -- the entry, an API server's dispatch of a
+    # grid of reviews through it, and the declared criteria; the id round trip through the announced URL
+    from vf import webhooks
+    webhooks.stage(ctx, rep, 'C18')
+    # ... and the closed loop: the real operator with managed webhook configurations, kinds that come and go, client configs on a schedule;
+    # the configuration objects in the cluster are read back at rest and after the exit and judged by the same reference
+    webhooks.managed_stage(ctx, rep, 'C18')
